@@ -3,6 +3,7 @@ import Autd3.Lemmas.SilGuardInv
 # C08: every handler re-establishes the invariant
 
 For each handler `X` of `cpu/operation/*.rs`: `X_step : Core s → (frame condition) → Post (X s d) (Step s G)`
+(for the repaired firmware model: `write_gain` also records `stm_mode`, `change_gain_segment` calls the guard)
 i.e. the core invariant holds again after the handler (whatever acknowledgement it returns, including
 `ERR_MISS_TRANSITION_TIME` after the request register was already written), and `GainOk` holds again
 provided it held before and the extra condition `G` (complete STM write) holds.
@@ -126,28 +127,23 @@ theorem writeGain_step (s : State) (d : Array Nat) (h : Core s) :
     fw_finish h
   · simp only [gt_iff_lt, hgt, ↓reduceIte, Post_error]
 
-/-- `change_gain_segment` does not call `validate_silencer_settings`; it is safe because of `GainOk` -/
-theorem changeGainSegment_step (s : State) (d : Array Nat) (h : Core s)
-    (hg : GainOkAt s (u8at d FwLayout.GainUpdate_segment_off)) :
+/-- `change_gain_segment` (repaired firmware: it now calls `validate_silencer_settings` on the target
+segment's division before moving belief and request) -/
+theorem changeGainSegment_step (s : State) (d : Array Nat) (h : Core s) :
     Post (changeGainSegment s d) (fun r => Step s True r) := by
   rw [Core_iff_view] at h
   simp only [Step_iff]
   have hs : s.ctl.size = 256 := h.1
   simp only [CoreV, view] at h
-  unfold GainOkAt at hg
   unfold changeGainSegment
   extract_lets +onlyGivenNames segment
-  have hseg : segment = u8at d FwLayout.GainUpdate_segment_off := rfl
-  rw [← hseg] at hg
   clear_value segment
   rcases (by omega : segment = 0 ∨ segment = 1 ∨ 1 < segment) with rfl | rfl | hgt
   · fw_exec
     fw_view hs
-    simp only [sel, STM_MODE_GAIN, ↓reduceIte] at hg
     fw_finish h
   · fw_exec
     fw_view hs
-    simp only [sel, STM_MODE_GAIN, ↓reduceIte] at hg
     fw_finish h
   · simp only [gt_iff_lt, hgt, ↓reduceIte, Post_error]
 
